@@ -32,7 +32,6 @@ SV_SDRAM_SYS = SV_BASE + 0xc8
 SV_RTR_COPY = SV_BASE + 0xd4
 N_SLOTS = 1024
 REC = "<HHIII"
-MOD = (1 << 61) - 1
 
 
 class SimError(Exception):
@@ -40,10 +39,11 @@ class SimError(Exception):
 
 
 def cksum(bs):
-    a = 0
+    a = s = 0
     for b in bytes(bs):
-        a = (a * 257 + b + 1) % MOD
-    return a
+        a += b + 1
+        s += a
+    return s * 4294967296 + a
 
 
 class SimChip(object):
